@@ -602,6 +602,22 @@ def trigF06s (R : Rounding) (a : Opnd) : Bool :=
   | .str cs => !(pyNumber R cs == FOArith.number10 R cs)
   | _ => false
 
+/-! ### call sites evaluated repeatedly (`for $a in …, $b in … return $a op $b`, one parsed token re-evaluated
+with other variables, a function item called again): the model of a call site is a function of its
+arguments only — no state is carried on the token between evaluations -/
+
+def evalCallSiteBin (R : Rounding) (v : Ver) (op : BinOp) : List (Num × Num) → List (Except Err Num)
+  | [] => []
+  | (a, b) :: rest => modelBin R v op a b :: evalCallSiteBin R v op rest
+
+/-- the unary call site `f($x, $p)`: the operator (with its precision) may change at every evaluation -/
+def evalCallSiteUn (R : Rounding) (v : Ver) : List (UnOp × Num) → List Num
+  | [] => []
+  | (op, a) :: rest => modelUn R v op a :: evalCallSiteUn R v rest
+
+/-- `for $a in as, $b in bs return $a op $b`: the argument pairs in evaluation order -/
+def forPairs (as bs : List Num) : List (Num × Num) := as.flatMap fun a => bs.map fun b => (a, b)
+
 /-! ### trigger predicates of the known findings and of the excluded regions
 (decidable, computed from the input only; hypotheses of the `_partial` theorems) -/
 
